@@ -1022,15 +1022,17 @@ func (p *Path) rangeIter(x Value, t types.Type) iter {
 		es := x.live()
 		if x != nil && x.Observe && len(es) > 1 {
 			es = p.permute(es)
-		} else if len(es) > 1 && !p.mapOrderRev {
-			p.mapRanges++ // the order of this iteration is a free choice of the runtime: second pass in reverse
-		} else if p.mapOrderRev {
+		} else if len(es) > 1 {
+			// the order of this iteration is a free choice of the runtime: insertion order on the first
+			// pass, reversed on the second, reversed on every second iteration of the path on the third
 			p.mapRanges++
-			r := make([]*mapEntry, len(es))
-			for i, e := range es {
-				r[len(es)-1-i] = e
+			if p.mapOrderRev && (!p.mapOrderAlt || p.mapRanges%2 == 0) {
+				r := make([]*mapEntry, len(es))
+				for i, e := range es {
+					r[len(es)-1-i] = e
+				}
+				es = r
 			}
-			es = r
 		}
 		return &mapIter{es: es}
 	}
